@@ -60,3 +60,48 @@ def family_paths(f, buf):
     for g, pn, call in buffer_helpers(f, buf):
         out.append((g, sem.paths(g)))
     return out
+
+
+CONVERSIONS = ('int.from_bytes', 'int', 'binascii.hexlify', 'hexlify', 'struct.unpack', 'unpack', 'struct.unpack_from')
+
+
+def slice_conversions(f, buf):
+    """Python slices truncate silently: a bounded slice `buf[a:b]` taken near the end of the data is shorter than b - a and
+    int.from_bytes / int(hexlify(..), 16) of it is a *wrong number*, not an error.  For f and the helpers that receive its buffer:
+    [(function, conversion text, slice text, guarded?)] for every conversion call whose argument contains a bounded slice of the buffer,
+    on every path; guarded = a condition established before the conversion on that path mentions len(<buffer ...>) (the count of
+    octets actually present was compared).  None for a function whose paths cannot be enumerated."""
+    out = []
+    fam = [(f, buf)] + [(g, pn) for g, pn, _c in buffer_helpers(f, buf)]
+    for g, b in fam:
+        ps = sem.paths(g)
+        if ps is None:
+            out.append((g, None, None, None))
+            continue
+        seen = {}
+        for p in ps:
+            k = 0
+            for ev in p.events:
+                if ev[0] == 'stmt':
+                    k = ev[1]
+                    continue
+                if ev[0] != 'call' or len(ev) < 3 or not isinstance(ev[2], ast.Call):
+                    continue
+                try:
+                    e = sem.parse_expr(ev[1])
+                except SyntaxError:
+                    continue
+                if not isinstance(e, ast.Call) or ast.unparse(e.func) not in CONVERSIONS:
+                    continue
+                slices = [n for a in e.args for n in ast.walk(a) if isinstance(n, ast.Subscript) and isinstance(n.slice, ast.Slice)
+                          and isinstance(n.value, ast.Name) and n.value.id == b and n.slice.upper is not None]
+                # only the outermost conversion of a nest (int(hexlify(slice), 16) is one conversion)
+                if not slices:
+                    continue
+                guarded = any('len(%s' % b in t for t, _pol in [(c[0], c[1]) for c in p.conds[:k]])
+                key = (ev[2].lineno, ev[2].col_offset)
+                prev = seen.get(key)
+                if prev is None or (prev[3] and not guarded):
+                    seen[key] = (g, ev[1], ast.unparse(slices[0]), guarded, ev[2])
+        out.extend(seen.values())
+    return out
